@@ -81,6 +81,75 @@ def _fld(x, base):
     return None, False
 
 
+def aff_reads_rule(ctx, R1, mod=None, M=None):
+    """ExprAff.get_r evaluated on symbolic read sets (shared with C08: the read set of a lifted instruction is the union of its assignments' get_r)."""
+    from ..fieldmatrix import Matrix as _Matrix
+    mod = mod or ctx.mod('expression')
+    M = M or _Matrix(mod)
+    # a store reads its address (and segment); a read-modify-write store also reads the cell it writes.
+    # ExprAff.get_r is evaluated on symbolic read sets (sets of atom names) for the four shapes of an assignment.
+    ga = M.methods['ExprAff'].get('get_r')
+    if ga is None:
+        raise AnalysisError('ExprAff.get_r not found')
+    from ..consteval import Evaluator as _Ev, NotConst as _NC, Obj as _Obj, Native as _Nat
+
+    def aff_reads(dst_is_mem, src_reads_dst, with_segm, mem_read):
+        src, dst, arg, segm = _Obj('src'), _Obj('dst'), _Obj('arg'), _Obj('segm')
+        src_set = {'S'} | ({dst} if (src_reads_dst and mem_read) else set())      # the cell is represented by the destination object itself
+        src.get_r = _Nat(lambda mr=False: set(src_set))
+        arg.get_r = _Nat(lambda mr=False: {'A'})
+        segm.get_r = _Nat(lambda mr=False: {'G'})
+        dst.arg, dst.segm = arg, (segm if with_segm else None)
+        dst.get_r = _Nat(lambda mr=False: ({dst, 'A'} | ({'G'} if with_segm else set())) if (dst_is_mem and mr) else ({dst} if dst_is_mem else {'D'}))
+        me = _Obj('self')
+        me.src, me.dst = src, dst
+        kinds = {'ExprMem': 'mem', 'Expr': 'expr'}
+
+        def isinst(o, k):
+            if o is dst:
+                return dst_is_mem if k == 'mem' else True
+            if o is segm:
+                return True
+            if o is None:
+                return False
+            return k == 'expr'
+        env = {'isinstance': _Nat(isinst), 'ExprMem': 'mem', 'Expr': 'expr', 'set': _Nat(lambda x=(): set(x))}
+        out = _Ev(env).call_user(ga.fn, [me, mem_read])
+        return set('DST' if x is dst else x for x in out)
+    n_shapes = 0
+    problems = []
+    for dst_is_mem in (False, True):
+        for src_reads_dst in (False, True):
+            for with_segm in ((False, True) if dst_is_mem else (False,)):
+                for mem_read in (False, True):
+                    n_shapes += 1
+                    try:
+                        got = set(aff_reads(dst_is_mem, src_reads_dst, with_segm, mem_read))
+                    except _NC as e:
+                        raise AnalysisError('ExprAff.get_r is outside the statically evaluable subset: %s' % e)
+                    need = {'S'}
+                    if src_reads_dst and mem_read:
+                        need.add('DST')
+                    if dst_is_mem and mem_read:
+                        need.add('A')
+                        if with_segm:
+                            need.add('G')
+                    missing = need - got
+                    if missing:
+                        names = {'S': 'the reads of the source', 'DST': 'the written cell although the source reads it', 'A': 'the registers that form the store address',
+                                 'G': 'the segment selector of the store'}
+                        problems.append((tuple(sorted(missing)), '%s destination%s, mem_read=%s%s: omits %s' % (
+                            'memory' if dst_is_mem else 'register', ' with segment' if with_segm else '', mem_read, ', source reads the destination cell' if src_reads_dst else '',
+                            ' and '.join(names[x] for x in sorted(missing)))))
+    if not problems:
+        R1.ok('ExprAff.get_r:store-address', sample='ExprAff.get_r evaluated on %d assignment shapes: source reads, store address, segment and a read-modify-write cell are all reported' % n_shapes)
+    else:
+        for key in sorted(set(k for k, _ in problems)):
+            msgs = [m for k, m in problems if k == key]
+            R1.violation('ExprAff.get_r:' + '+'.join(key), 'ExprAff.get_r:omits:' + '+'.join(key), 'the read set of an assignment (%s)' % msgs[0], where(mod, ga.fn),
+                         witness="'mov [ebx+ecx*4], 1' reads nothing" if 'A' in key else "'@32[a+4] = @32[a+4] + 1' does not read @32[a+4]")
+
+
 def run(ctx, report):
     mod = ctx.mod('expression')
     M = Matrix(mod)
@@ -153,20 +222,7 @@ def run(ctx, report):
                 bad = True
         if not bad:
             R1.ok(c + '.get_r', sample='%s.get_r recurses into %s' % (c, sorted(f for f in mi.recursed if 'get_r' in mi.recursed[f])))
-    # a store reads its address (and segment)
-    ga = M.methods['ExprAff'].get('get_r')
-    if ga is None:
-        raise AnalysisError('ExprAff.get_r not found')
-    mr_a = ga.fn.args.args[1].arg
-    guard_ifs = [n for n in ast.walk(ga.fn) if isinstance(n, ast.If) and 'isinstance(self.dst, ExprMem)' in u(n.test)]
-    addr = [n for g in guard_ifs for s_ in g.body for n in ast.walk(s_) if isinstance(n, ast.Call) and u(n.func) == 'self.dst.arg.get_r' and mr_a in [u(a) for a in n.args]]
-    segm = [n for g in guard_ifs for s_ in g.body for n in ast.walk(s_) if isinstance(n, ast.Call) and u(n.func) == 'self.dst.segm.get_r']
-    rets_a = [n for n in ast.walk(ga.fn) if isinstance(n, ast.Return)]
-    if addr and segm and rets_a and all(u(r.value) != 'self.src.get_r(%s)' % mr_a for r in rets_a):
-        R1.ok('ExprAff.get_r:store-address', sample='ExprAff.get_r adds the read set of the address and segment of a memory destination')
-    else:
-        R1.violation('ExprAff.get_r:store-address', 'ExprAff.get_r:store-address', 'the read set of an assignment to memory omits the registers that form the address (and the segment selector)',
-                     where(mod, ga.fn), witness="'mov [ebx+ecx*4], 1' reads nothing")
+    aff_reads_rule(ctx, R1, mod, M)
     # get_w
     gw = M.methods['ExprAff'].get('get_w')
     if gw is None:
